@@ -1238,6 +1238,15 @@ def r_poll(e, R, only_funcs=None):
                    "polling loop whose guard is not provably false once the pool is broken / all workers are gone "
                    "(it polls a snapshot taken before the loop, or has no escape): the call spins forever when a "
                    "worker in the snapshot exits during the wait", e.loc(f, loop), instance=inst)
+    # a sleeping loop written as `for ... in range(n)` is bounded by construction
+    for f in e.prog.funcs.values():
+        if f.module.name == "__user__" or (only_funcs is not None and f.qualname not in only_funcs):
+            continue
+        for n in func_nodes(f):
+            if isinstance(n, ast.For) and isinstance(n.iter, ast.Call) and isinstance(n.iter.func, ast.Name) and n.iter.func.id == "range" and not any(
+                    isinstance(w, ast.While) for w in _walk_noscope(n) if w is not n) and any(
+                    isinstance(x, ast.Call) and sleep_call(e, f, x) for x in _walk_noscope(n)):
+                R.ok("R-POLL", f"{f.short}: for ... in {norm(n.iter)[:40]} with a sleep -- bounded by the range", e.loc(f, n))
     if only_funcs is None:
         R.floor("R-POLL", 5)
 
